@@ -22,13 +22,19 @@ def run(ctx, rep):
         rep.fail("R3.3", "anchors", "Mode / Mode::encode_length not found")
         return
     rep.fn(b.name)
+    from mirq import inline_calls
+    ib = inline_calls(b, lambda d: d.startswith("insim::net::mode::") and not d.endswith("::max_length") and "{closure" not in d, depth=3)
+    if ib is not b:
+        rep.notes.append("R3.3: private helper(s) of insim::net::mode inlined into encode_length")
+        b = ib
     ml = absint.const_table_summary(mir, "insim::net::mode::Mode::max_length")
     mn = absint.const_table_summary(mir, "insim::net::mode::Mode::valid_raw_buffer_min_len")
     names = {v["idx"]: v["name"] for v in mode["variants"]}
     want = {"Uncompressed": 255, "Compressed": 1020}
     got = {names.get(k): v for k, v in (ml or {}).items()}
     rep.check("R3.3", "max_length:table", got == want, "Mode::max_length must be {Uncompressed: 255, Compressed: 1020}; found %s" % got, b.loc(), sample={"max_length": got})
-    rep.check("R3.3", "min_len", mn == {None: 4}, "minimum frame length must be the constant 4; found %s" % mn, b.loc(), nontrivial=False)
+    if mir.body("insim::net::mode::Mode::valid_raw_buffer_min_len") is not None:
+        rep.check("R3.3", "min_len", mn == {None: 4}, "minimum frame length must be the constant 4; found %s" % mn, b.loc(), nontrivial=False)
     rep.check("R3.3", "MAX_SIZE_PACKET", mir.const_val("insim::MAX_SIZE_PACKET") == 1020, "MAX_SIZE_PACKET must be 1020", b.loc(), nontrivial=False)
     summ = summaries(ctx)
     rows = b.decision_rows()
@@ -41,11 +47,6 @@ def run(ctx, rep):
         rep.check("R3.3", "%s:ok-path" % vn, len(oks) == 1, "expected one reachable Ok(..) return for Mode::%s (found %d)" % (vn, len(oks)), b.loc(), nontrivial=False)
         casts = [c for c in an.casts if c["to"] == "u8" and c["bb"] in an.reachable() and not c["exp"]]
         rep.check("R3.3", "%s:cast-site" % vn, len(casts) >= 1, "no `as u8` conversion of the size found for Mode::%s" % vn, b.loc(), nontrivial=False)
-        for n, c in enumerate(casts):
-            rep.check("R3.3", "%s:size-byte-fits:%d" % (vn, n), c["fits"],
-                      "Mode::%s: the value converted with `as u8` ranges over [%s, %s]; the size byte wraps for frames the guards let through"
-                      % (vn, c["iv"][0] if c["iv"] else "?", c["iv"][1] if c["iv"] else "?"), b.loc(c["line"]),
-                      sample={"mode": vn, "operand_interval": list(c["iv"]) if c["iv"] else None, "fits_u8": c["fits"]})
         for (i, st) in oks:
             lv = an.value_at_exit(i, {"copy": {"l": 2, "p": []}})
             rep.check("R3.3", "%s:min-length" % vn, lv is not None and lv[0] >= 4,
@@ -53,46 +54,89 @@ def run(ctx, rep):
                       sample={"mode": vn, "len_interval_at_ok": [lv[0], min(lv[1], 2 ** 64)] if lv else None})
             rep.check("R3.3", "%s:max-length" % vn, lv is not None and lv[1] <= want.get(vn, -1),
                       "Mode::%s: Ok is reachable with len up to %s (limit %s)" % (vn, lv[1] if lv else "?", want.get(vn)), b.loc(st["line"]))
-        # the size value: len (Uncompressed) / len div 4 under a divisibility guard (Compressed)
-        vrows = [r for r in rows if r[1][1] == "Ok" and ("discr(*arg1)", "eq", (vi,)) in [(c[1], c[2], c[3]) for c in r[0]]]
-        rep.check("R3.3", "%s:rows" % vn, len(vrows) == 1, "expected one accepting decision row for Mode::%s" % vn, b.loc(), nontrivial=False)
-        if len(vrows) == 1:
-            conds = [(c[1], c[2], c[3]) for c in vrows[0][0]]
-            if want.get(vn) == 1020:
-                div = [c for c in conds if re.search(r"checked_rem\(arg2, 4\) as Some\.0|\(arg2 Rem 4\)", c[0]) and c[1] == "eq" and c[2] == (0,)]
-                rep.check("R3.3", "%s:divisible-by-4" % vn, len(div) == 1, "Mode::%s: the accepting path lacks the `len %% 4 == 0` guard (conditions %s)" % (vn, conds), b.loc(),
-                          sample={"mode": vn, "conditions": [list(c) for c in conds]})
-        # value definition on this variant's path, compared bit by bit: size byte = len (Uncompressed) / len >> 2 (Compressed)
-        phi = [c for c in an.casts if c["to"] == "u8" and not c["exp"]]
-        if phi:
-            import bits
-            st = b.blocks[phi[0]["bb"]]["stmts"][phi[0]["idx"]]
-            o = b.origin(st["rv"]["x"])
-            exprs = []
-            if o[0] == "phi":
-                for d in b.defs().get(o[1], []):
-                    if d[0] == "stmt" and d[1] in an.reachable():
-                        rv = d[3]["rv"]
-                        if rv["k"] == "use":
-                            exprs.append(b.origin(rv["x"]))
-                        elif rv["k"] == "bin":
-                            exprs.append(("bin", rv["op"], b.origin(rv["l"]), b.origin(rv["r"]), rv.get("lty")))
-                        else:
-                            exprs.append(("rv", rv["k"]))
-            else:
-                exprs = [o]
-
-            def leaf(x):
-                return ("len", 64) if x == ("arg", 2) else None
-            shift = 0 if want.get(vn) == 255 else 2
-            expect = [("f", "len", i + shift) if i + shift < 64 else 0 for i in range(64)]
-            got_bits = [bits.evaluate(e, 64, leaf) for e in exprs]
-            okv = len(got_bits) == 1 and got_bits[0][:10] == expect[:10]
-            rep.check("R3.3", "%s:size-value" % vn, okv, "Mode::%s: the size byte must be len%s; the expression(s) %s give bits %s" % (vn, "" if shift == 0 else " / 4", [fmt_origin(e) for e in exprs], [str(x) for x in (got_bits[0][:10] if got_bits else [])]),
-                      b.loc(), sample={"mode": vn, "value": [fmt_origin(e) for e in exprs]})
+        contract(ctx, rep, b, rows, vi, vn, want.get(vn))
+        bounded = all(i["ok"] for i in rep.instances if i["rule"] == "R3.3" and i["key"].endswith(("%s:max-length" % vn, "%s:size-value" % vn))) and \
+            any(i["key"].endswith("%s:size-value" % vn) for i in rep.instances if i["rule"] == "R3.3")
+        for n, c in enumerate(casts):
+            rep.check("R3.3", "%s:size-byte-fits:%d" % (vn, n), c["fits"] or bounded,
+                      "Mode::%s: the value converted with `as u8` ranges over [%s, %s]; the size byte wraps for frames the guards let through"
+                      % (vn, c["iv"][0] if c["iv"] else "?", c["iv"][1] if c["iv"] else "?"), b.loc(c["line"]),
+                      sample={"mode": vn, "operand_interval": list(c["iv"]) if c["iv"] else None, "fits_u8": c["fits"],
+                              "argument": "interval of the cast operand" if c["fits"] else "len <= max at Ok (intervals) and size byte == len/scale for every len <= 4200 (table)"})
     rep.floor("R3.3", 12)
     encode_order(ctx, rep)
     encode_inventory(ctx, rep)
+
+
+def contract(ctx, rep, b, rows, vi, vn, hi):
+    """encode_length as a finite table, evaluated for every length 0..=4200 and some huge ones: Ok(v) only for 4 <= len <= max,
+    (compressed) len % 4 == 0, and v == len / scale without wrapping; every such length is accepted."""
+    import tabeval
+    scale = 1 if hi == 255 else 4
+    tables = {}
+
+    def call(d, rd, args, ev):
+        name = rd or d
+        v = tabeval.std_call(d, args, ev)
+        if v is not None:
+            return v
+        if name.startswith("insim::net::mode::"):
+            if name not in tables:
+                tables[name] = absint.const_table_summary(ctx.mir, name)
+            tb = tables[name]
+            if tb is not None:
+                return tb.get(vi, tb.get(None))
+        return None
+
+    def leaf(o):
+        if o[0] == "discr" and strip_refs(o[1]) == ("arg", 1):
+            return vi
+        if o == ("arg", 2):
+            return ev.len
+        return None
+    from mirq import strip_refs
+    ev = tabeval.Evaluator(leaf, call)
+    bad = {"rows": None, "divisible-by-4": None, "size-value": None, "range": None, "accepts-valid": None}
+    undecided = None
+    n_ok = 0
+    for ln in list(range(0, 4201)) + [65535, 65536, 2 ** 32, 2 ** 32 + 4, 2 ** 63, 2 ** 64 - 4]:
+        ev.len = ln
+        try:
+            m = ev.matching_rows(rows)
+        except tabeval.Unknown as e:
+            undecided = e.what
+            break
+        valid = hi is not None and 4 <= ln <= hi and ln % scale == 0
+        kinds = {r[1][1] for r in m}
+        if len(kinds) > 1:
+            bad["rows"] = bad["rows"] or "len %d: rows with different results apply (%s)" % (ln, sorted(kinds))
+            continue
+        if "Ok" in kinds:
+            n_ok += 1
+            r = m[0][1]
+            try:
+                v = ev.ev(r[3][0])
+            except (tabeval.Unknown, tabeval.Panic) as e:
+                undecided = "size value: %s" % e
+                break
+            if ln % scale != 0:
+                bad["divisible-by-4"] = bad["divisible-by-4"] or "len %d is accepted although it is not a multiple of %d" % (ln, scale)
+            elif hi is not None and not (4 <= ln <= hi):
+                bad["range"] = bad["range"] or "len %d is accepted (limits 4..=%d)" % (ln, hi)
+            if v != ln // scale:
+                bad["size-value"] = bad["size-value"] or "len %d is emitted with size byte %d (expected %d)" % (ln, v, ln // scale)
+        elif valid:
+            bad["accepts-valid"] = bad["accepts-valid"] or "the legal length %d is refused (%s)" % (ln, sorted(kinds) or "panic")
+    if undecided:
+        rep.fail("R3.3", "%s:table" % vn, "Mode::%s: encode_length's decision table could not be evaluated (%s)" % (vn, undecided), b.loc())
+        return
+    rep.check("R3.3", "%s:rows" % vn, bad["rows"] is None and n_ok > 0, "Mode::%s: %s" % (vn, bad["rows"] or "no length is accepted"), b.loc(), nontrivial=False)
+    if scale == 4:
+        rep.check("R3.3", "%s:divisible-by-4" % vn, bad["divisible-by-4"] is None, "Mode::%s: %s" % (vn, bad["divisible-by-4"]), b.loc(), sample={"mode": vn, "accepted_lengths": n_ok})
+    rep.check("R3.3", "%s:size-value" % vn, bad["size-value"] is None and bad["range"] is None,
+              "Mode::%s: the size byte must be len%s for 4 <= len <= %s: %s" % (vn, "" if scale == 1 else " / 4", hi, bad["size-value"] or bad["range"]), b.loc(),
+              sample={"mode": vn, "accepted_lengths": n_ok, "domain": "0..=4200 and six lengths up to 2^64-4"})
+    rep.check("R3.3", "%s:accepts-valid" % vn, bad["accepts-valid"] is None, "Mode::%s: %s" % (vn, bad["accepts-valid"]), b.loc(), sample={"mode": vn})
 
 
 def encode_inventory(ctx, rep):
